@@ -47,3 +47,13 @@ func (s *Store) AsStorageSharedDevice() op.Storage {
 		SharedDev
 	}{s, CC{s}, TE{s}, SharedDev{Dev{s}}}
 }
+
+// AuthRequestState returns the state parameter of a stored auth request (under the store's lock).
+func (s *Store) AuthRequestState(id string) (string, bool) {
+	s.mu.Lock()
+	defer s.mu.Unlock()
+	if a, ok := s.AuthReqs[id]; ok {
+		return a.State, true
+	}
+	return "", false
+}
